@@ -292,7 +292,13 @@ def _cuts(rng, ivs, other):
         if e - s <= U:
             continue
         inner = [p for p in cand if s < p < e]
-        if inner and rng.random() < 0.4:
+        if rng.random() < 0.2:
+            # next to (not on) a boundary of either annotation: 1 ulp .. 1e-7 s before or after it.  The cut leaves the
+            # labelling as a function of time unchanged, so nothing may be merged, dropped or relabelled
+            b = float(rng.choice(cand + [p for iv in ivs for p in iv]))
+            d = rng.choice([float(np.spacing(b)) if b > 0 else 5e-324, 4e-10, 9.9e-10, 3e-9, 1e-7])
+            out.append(b - d if rng.random() < 0.6 else b + d)
+        elif inner and rng.random() < 0.4:
             out.append(rng.choice(inner))
         else:
             out.append(s + rng.randint(1, int((e - s) / U) - 1) * U)
